@@ -48,6 +48,12 @@ def Op.plain : Op → Bool
   | .btext .. | .berase .. | .bskip .. | .bchar .. | .bhline .. | .bclear _ => false
   | _ => true
 
+/-- The pen operations with reference traffic inside the library: change events (whose handlers take and drop
+    references to pens), `freeze`/`thaw`, the source kept alive by `tickit_pen_copy`. -/
+def Op.penEvent : Op → Bool
+  | .pset .. | .pdesc .. | .pcopy .. | .pcopyattr .. | .pbind .. | .punbind .. => true
+  | _ => false
+
 /-! ## observation text (must equal what harness/life.c prints) -/
 
 def showIds (l : List Id) : String := ",".intercalate (l.map toString)
